@@ -1,6 +1,11 @@
 use std::cell::Cell;
 use std::ptr;
+#[cfg(not(multiqueue2_verif))]
 use std::sync::atomic::{fence, AtomicPtr, AtomicUsize, Ordering};
+#[cfg(multiqueue2_verif)]
+use crate::verif_hooks::{fence, AtomicPtr, AtomicUsize};
+#[cfg(multiqueue2_verif)]
+use std::sync::atomic::Ordering;
 
 use crate::alloc;
 use crate::consume::CONSUME;
@@ -224,6 +229,8 @@ impl ReadCursor {
         loop {
             unsafe {
                 let first_ptr = self.readers.load(CONSUME);
+                #[cfg(multiqueue2_verif)]
+                crate::verif_hooks::touch(first_ptr);
                 let rg = &*first_ptr;
                 let rval = rg.get_max_diff(cur_writer);
                 // This check ensures that the pointer hasn't changed
@@ -252,6 +259,8 @@ impl ReadCursor {
         let mut current_ptr = self.readers.load(CONSUME);
         loop {
             unsafe {
+                #[cfg(multiqueue2_verif)]
+                crate::verif_hooks::touch(current_ptr);
                 let current_group = &*current_ptr;
                 let raw = (*reader.pos).pos_data.load_raw(Ordering::Relaxed);
                 let wrap = (*reader.pos).pos_data.wrap_at();
@@ -285,6 +294,8 @@ impl ReadCursor {
         let mut current_group = self.readers.load(CONSUME);
         loop {
             unsafe {
+                #[cfg(multiqueue2_verif)]
+                crate::verif_hooks::touch(current_group);
                 let new_group = (*current_group).remove_reader(reader.pos);
                 match self.readers.compare_exchange(
                     current_group,
@@ -315,6 +326,8 @@ impl ReadCursor {
     pub fn has_readers(&self) -> bool {
         unsafe {
             let current_group = &*self.readers.load(CONSUME);
+            #[cfg(multiqueue2_verif)]
+            crate::verif_hooks::touch(current_group as *const ReaderGroup);
             current_group.readers.is_empty()
         }
     }
